@@ -27,6 +27,10 @@
 (* requests.  The parser's hit counters (which secret is tried first) are  *)
 (* modelled only so that TLC drives the real parser through every ordering *)
 (* state, and to check that the try-order cannot change the verdict.       *)
+(* For the same reason the verdict of a request cannot depend on requests  *)
+(* served at the same time: the driver's concurrent stage replays several  *)
+(* behaviours of this module at once against ONE route (one parser) and    *)
+(* judges every request by its own step.                                   *)
 (***************************************************************************)
 EXTENDS Integers, Sequences, FiniteSets, TLC
 
@@ -89,6 +93,11 @@ CoreTokens ==
         Tok("bearer", "prev", "HS256", "notyet", "custom"),
         Tok("bearer", "cur", "HS256", "noclaims", "custom")}
   \cup OddTokens
+
+\* classes for the concurrent stage: mostly valid tokens under either secret, a few invalid ones
+ConcTokens ==
+  {Tok("bearer", k, a, "valid", c) : k \in {"cur", "prev"}, a \in {"HS256", "HS512"}, c \in {"custom", "mixed"}}
+  \cup {Tok("bearer", "other", "HS256", "valid", "custom"), Tok("bearer", "prev", "HS256", "expired", "custom")}
 
 \* fewer classes, for longer sequences
 FewTokens ==
